@@ -785,7 +785,7 @@ func c20ConcurrentDedup(w *core.W, j int) {
 					first.CompareAndSwap(nil, fmt.Sprintf("panic: %v", r))
 				}
 			}()
-			for rep := 0; rep < 3; rep++ {
+			for rep := 0; rep < 10; rep++ {
 				for r := 0; r < rounds; r++ {
 					in := mkList(t, r)
 					if got := render(dns.Dedup(in, nil)); got != want[[2]int{t, r}] {
@@ -798,9 +798,9 @@ func c20ConcurrentDedup(w *core.W, j int) {
 	}
 	wg.Wait()
 	w.Eval(1)
-	w.Count("concurrent_dedup_calls", 8*3*rounds)
+	w.Count("concurrent_dedup_calls", 8*10*rounds)
 	if n := bad.Load(); n > 0 {
-		w.Violation("C20/concurrent-use-differs/Dedup-large-lists", fmt.Sprintf("%d of %d Dedup calls made from 8 goroutines at once, each on a list of its own, returned something else than the same call made alone (%v)", n, 8*3*rounds, first.Load()), nil)
+		w.Violation("C20/concurrent-use-differs/Dedup-large-lists", fmt.Sprintf("%d of %d Dedup calls made from 8 goroutines at once, each on a list of its own, returned something else than the same call made alone (%v)", n, 8*10*rounds, first.Load()), nil)
 	}
 	w.NontrivialStr("concurrent-dedup", fmt.Sprint(j))
 }
@@ -812,7 +812,7 @@ func init() {
 		section{"dedup", tiered(2500, 60000), c20Dedup},
 		concurrentSection("C20"),
 		section{"type-lists", tiered(24, 240), c20TypeLists},
-		section{"concurrent-dedup", tiered(6, 60), c20ConcurrentDedup},
+		section{"concurrent-dedup", tiered(8, 80), c20ConcurrentDedup},
 	)
 	core.Register(&core.Monitor{
 		ID: "C20", Level: "exploration", Plan: plan, Run: run,
